@@ -158,16 +158,33 @@ func init() {
 			if fields != nil {
 				okA := app(okN)
 				e.assert(&Term{S: fmt.Sprintf("(=> %s (= %s ((_ zero_extend 32) %s)))", okA, app(nsN), fields["nsec"])})
-				e.declUF("tm_year", "((_ BitVec 64)) (_ BitVec 64)")
-				lsec := app(secN)
-				if lo.signed() != 0 {
-					lsec = "(bvadd " + lsec + " " + bvLit(uint64(lo.signed()), 64) + ")"
+				// the offset of the result: the value's own zone if the layout
+				// has one, else the location's
+				off64 := bvLit(uint64(lo.signed()), 64)
+				off32 := c32(int(lo.signed()))
+				if layoutHasZone(layout) {
+					off64 = "((_ sign_extend 32) " + fields["zoff"] + ")"
+					off32 = fields["zoff"]
+					e.declUF(offN, sig+" (_ BitVec 64)")
+					e.assert(&Term{S: fmt.Sprintf("(=> %s (= %s %s))", okA, app(offN), off64)})
 				}
-				e.assert(&Term{S: fmt.Sprintf("(=> %s (= (tm_year %s) ((_ zero_extend 32) %s)))", okA, lsec, fields["year"])})
-				z := time.Unix(-62135596800+lo.signed(), 0).UTC()
-				isz := fmt.Sprintf("(and (= %s %s) (= %s %s) (= %s %s) (= %s %s) (= %s %s) (= %s %s))",
-					fields["year"], c32(z.Year()), fields["month"], c32(int(z.Month())), fields["day"], c32(z.Day()),
-					fields["hour"], c32(z.Hour()), fields["min"], c32(z.Minute()), fields["sec"], c32(z.Second()))
+				lsec := "(bvadd " + app(secN) + " " + off64 + ")"
+				// the wall-clock reading of the result shows the parsed fields,
+				// and building a date from them gives the instant back; these
+				// axioms are stated for a component function only once the
+				// path uses that function (tpActivate)
+				e.declUF("tm_year", "((_ BitVec 64)) (_ BitVec 64)")
+				e.tpReg = append(e.tpReg, tpRegEntry{ok: okA, lsec: lsec, fields: fields, done: map[string]bool{}})
+				e.tpActivate("tm_year")
+				for uf := range e.tpActive {
+					e.tpAxiom(e.tpReg[len(e.tpReg)-1], uf)
+				}
+				// the zero instant 0001-01-01 00:00:00 UTC reads, at offset o,
+				// as 0001-01-01 + o (o >= 0) or 0000-12-31 24:00 + o (o < 0)
+				tod := fmt.Sprintf("(bvadd (bvmul %s %s) (bvmul %s %s) %s)", fields["hour"], c32(3600), fields["min"], c32(60), fields["sec"])
+				isz := fmt.Sprintf("(or (and (bvsge %s %s) (= %s %s) (= %s %s) (= %s %s) (= %s %s)) (and (bvslt %s %s) (= %s %s) (= %s %s) (= %s %s) (= %s (bvadd %s %s))))",
+					off32, c32(0), fields["year"], c32(1), fields["month"], c32(1), fields["day"], c32(1), tod, off32,
+					off32, c32(0), fields["year"], c32(0), fields["month"], c32(12), fields["day"], c32(31), tod, c32(86400), off32)
 				e.assert(&Term{S: fmt.Sprintf("(=> %s (= (= %s %s) %s))", okA, app(secN), zeroTimeV.Sec.term().S, isz)})
 			}
 		}
@@ -203,19 +220,74 @@ func init() {
 		return c
 	}
 
-	stubs["(time.Time).Year"] = func(e *Exec, fn *ssa.Function, args []value) value {
-		tv := args[0].(TimeV)
-		sec := tv.localSec()
-		if sec.isConc() {
-			return mkI64(int64(time.Unix(sec.signed(), 0).UTC().Year()))
+	// wall-clock components: uninterpreted functions of the reading in the
+	// instant's zone (seconds), evaluated natively on models
+	comp := func(method, uf string, native func(time.Time) int) {
+		stubs["(time.Time)."+method] = func(e *Exec, fn *ssa.Function, args []value) value {
+			tv := args[0].(TimeV)
+			sec := tv.localSec()
+			if sec.isConc() {
+				return mkI64(int64(native(time.Unix(sec.signed(), 0).UTC())))
+			}
+			e.declTimeUFs()
+			e.tpActivate(uf)
+			t := "(" + uf + " " + sec.term().S + ")"
+			e.ufApps = append(e.ufApps, ufApp{term: t, args: []string{sec.term().S}, eval: func(vals []string) (string, bool) {
+				return bvLit(uint64(native(time.Unix(int64(parseBV(vals[0])), 0).UTC())), 64), true
+			}})
+			return Int{W: 64, S: true, T: &Term{S: t}}
 		}
-		e.declUF("tm_year", "((_ BitVec 64)) (_ BitVec 64)")
-		t := "(tm_year " + sec.term().S + ")"
-		e.ufApps = append(e.ufApps, ufApp{term: t, args: []string{sec.term().S}, eval: func(vals []string) (string, bool) {
-			return bvLit(uint64(time.Unix(int64(parseBV(vals[0])), 0).UTC().Year()), 64), true
-		}})
-		return Int{W: 64, S: true, T: &Term{S: t}}
 	}
+	comp("Year", "tm_year", func(t time.Time) int { return t.Year() })
+	comp("Month", "tm_month", func(t time.Time) int { return int(t.Month()) })
+	comp("Day", "tm_day", func(t time.Time) int { return t.Day() })
+	comp("Hour", "tm_hour", func(t time.Time) int { return t.Hour() })
+	comp("Minute", "tm_minute", func(t time.Time) int { return t.Minute() })
+	comp("Second", "tm_second", func(t time.Time) int { return t.Second() })
+	stubs["(time.Time).Location"] = func(e *Exec, fn *ssa.Function, args []value) value {
+		tv := args[0].(TimeV)
+		if p, ok := tv.Loc.(*value); ok && p != nil {
+			return p
+		}
+		c := new(value)
+		*c = locObj{Off: mkI64(0)}
+		return c
+	}
+	// time.Date(y, mo, d, h, mi, s, ns, loc) for normalised fields: the UTC
+	// instant of the civil reading is an uninterpreted function, the zone's
+	// offset is subtracted
+	date := func(e *Exec, y, mo, d, h, mi, s Int, nsec Int, loc value) TimeV {
+		off := locOffset(loc)
+		if y.isConc() && mo.isConc() && d.isConc() && h.isConc() && mi.isConc() && s.isConc() && nsec.isConc() && off.isConc() {
+			r := time.Date(int(y.signed()), time.Month(mo.signed()), int(d.signed()), int(h.signed()), int(mi.signed()), int(s.signed()), int(nsec.signed()), time.UTC)
+			return TimeV{Sec: mkI64(r.Unix() - off.signed()), Nsec: mkI64(int64(r.Nanosecond())), Loc: loc}
+		}
+		e.declTimeUFs()
+		e.tpActivate("tm_date6")
+		args := []string{i64(y).term().S, i64(mo).term().S, i64(d).term().S, i64(h).term().S, i64(mi).term().S, i64(s).term().S}
+		t := "(tm_date6 " + strings.Join(args, " ") + ")"
+		e.ufApps = append(e.ufApps, ufApp{term: t, args: args, eval: func(vals []string) (string, bool) {
+			v := make([]int, 6)
+			for i := range vals {
+				v[i] = int(int64(parseBV(vals[i])))
+				if v[i] > 1<<40 || v[i] < -(1<<40) {
+					return "", false
+				}
+			}
+			return bvLit(uint64(time.Date(v[0], time.Month(v[1]), v[2], v[3], v[4], v[5], 0, time.UTC).Unix()), 64), true
+		}})
+		rs := Int{W: 64, S: true, T: &Term{S: t}}
+		if !(off.isConc() && off.signed() == 0) {
+			rs = intBinop(token.SUB, rs, off).(Int)
+		}
+		return TimeV{Sec: rs, Nsec: nsec, Loc: loc}
+	}
+	stubs["time.Date"] = func(e *Exec, fn *ssa.Function, args []value) value {
+		return date(e, args[0].(Int), args[1].(Int), args[2].(Int), args[3].(Int), args[4].(Int), args[5].(Int), i64(args[6].(Int)), args[7])
+	}
+	// AddDate(y, 0, 0): an uninterpreted function of the wall-clock reading and
+	// the number of years (one application on both sides of every comparison;
+	// composing it from Date and the components made the queries intractable)
 	stubs["(time.Time).AddDate"] = func(e *Exec, fn *ssa.Function, args []value) value {
 		tv := args[0].(TimeV)
 		y, m, d := args[1].(Int), args[2].(Int), args[3].(Int)
@@ -241,4 +313,50 @@ func init() {
 		}
 		return TimeV{Sec: rs, Nsec: nsec, Loc: tv.Loc}
 	}
+}
+
+// tpRegEntry is one symbolic time.Parse result with exact fields.
+type tpRegEntry struct {
+	ok, lsec string
+	fields   map[string]string
+	done     map[string]bool
+}
+
+var tpFieldOfUF = map[string]string{"tm_year": "year", "tm_month": "month", "tm_day": "day", "tm_hour": "hour", "tm_minute": "min", "tm_second": "sec"}
+
+func (e *Exec) tpAxiom(r tpRegEntry, uf string) {
+	if r.done[uf] {
+		return
+	}
+	r.done[uf] = true
+	if uf == "tm_date6" {
+		z64 := func(f string) string { return "((_ zero_extend 32) " + r.fields[f] + ")" }
+		e.assert(&Term{S: fmt.Sprintf("(=> %s (= (tm_date6 %s %s %s %s %s %s) %s))", r.ok, z64("year"), z64("month"), z64("day"), z64("hour"), z64("min"), z64("sec"), r.lsec)})
+		return
+	}
+	e.assert(&Term{S: fmt.Sprintf("(=> %s (= (%s %s) ((_ zero_extend 32) %s)))", r.ok, uf, r.lsec, r.fields[tpFieldOfUF[uf]])})
+}
+
+// tpActivate: from now on the path uses the component function uf; state its
+// exact value for every symbolic parse result so far (later ones state it
+// themselves).
+func (e *Exec) tpActivate(uf string) {
+	if e.tpActive == nil {
+		e.tpActive = map[string]bool{}
+	}
+	if e.tpActive[uf] {
+		return
+	}
+	e.tpActive[uf] = true
+	e.declTimeUFs()
+	for i := range e.tpReg {
+		e.tpAxiom(e.tpReg[i], uf)
+	}
+}
+
+func (e *Exec) declTimeUFs() {
+	for _, uf := range []string{"tm_year", "tm_month", "tm_day", "tm_hour", "tm_minute", "tm_second"} {
+		e.declUF(uf, "((_ BitVec 64)) (_ BitVec 64)")
+	}
+	e.declUF("tm_date6", "((_ BitVec 64) (_ BitVec 64) (_ BitVec 64) (_ BitVec 64) (_ BitVec 64) (_ BitVec 64)) (_ BitVec 64)")
 }
